@@ -464,7 +464,19 @@ type LockDecl struct {
 	Inv      string // pure function name taking the owner pointer
 }
 
+// GhostSum: a ghost sum over the domain of maps of one type:
+// Sum(dom) = sum of weight(k) for k in dom. Declared in a contract file as
+//
+//	ghostsum NAME map[K]V weight EXPR(k)
+type GhostSum struct {
+	Name    string
+	MapType TypeExpr
+	Weight  Expr // over the bound key `k`
+	Pkg     string
+}
+
 type ContractDB struct {
+	sums      []*GhostSum
 	funcs     map[string]*FuncContract
 	pures     map[string]*PureFunc
 	lemmas    []*Lemma
@@ -482,7 +494,7 @@ func (db *ContractDB) allowPanic(fn string) bool {
 }
 
 var clauseKeywords = map[string]bool{
-	"assert_at_unlock": true, "assert_after_store": true, "assume_after_lock": true, "apply_after_lock": true, "opaque": true, "apply": true, "reveal": true, "guard": true, "lock": true, "lockorder": true, "pure": true, "lemma": true, "func": true, "props": true, "safety": true,
+	"ghostsum": true, "assert_at_unlock": true, "assert_after_store": true, "assume_after_lock": true, "apply_after_lock": true, "opaque": true, "apply": true, "reveal": true, "guard": true, "lock": true, "lockorder": true, "pure": true, "lemma": true, "func": true, "props": true, "safety": true,
 	"requires": true, "ensures": true, "let": true, "assigns": true, "loop": true, "invariant": true,
 	"decreases": true, "allow_panic": true, "modular": true, "init_context": true, "entry": true, "option": true, "uses": true, "end": true,
 }
@@ -607,6 +619,21 @@ func (db *ContractDB) addClauses(pkg string, clauses []string, path string) erro
 				}
 			}
 			db.locks = append(db.locks, ld)
+		case "ghostsum":
+			// ghostsum NAME map[string]*LogEntry weight 2 * len(k)
+			f := strings.SplitN(rest, " weight ", 2)
+			if len(f) != 2 {
+				return fmt.Errorf("bad ghostsum %q", cl)
+			}
+			hd := strings.Fields(f[0])
+			if len(hd) != 2 {
+				return fmt.Errorf("bad ghostsum %q", cl)
+			}
+			e, err := mustParse(strings.TrimSpace(f[1]))
+			if err != nil {
+				return err
+			}
+			db.sums = append(db.sums, &GhostSum{Name: hd[0], MapType: TypeExpr{hd[1]}, Weight: e, Pkg: pkg})
 		case "lockorder":
 			f := strings.Split(rest, "->")
 			if len(f) != 2 {
